@@ -62,6 +62,7 @@ class HistoryFamily:
             for _ in range(rng.randint(1, 3)):
                 dom.insert(rng.randrange(len(dom) + 1), rng.choice(dom))        # the domain lists an object twice
         g = gen_query.Gen(rng, 1, maxdepth=2)
+        g.consts = False          # (the pull counts of the lazy model are claimed for conditions whose every leaf mentions the variable)
         queries = []
         for _ in range(rng.choice([1, 2, 2, 3])):
             guard = None
@@ -236,6 +237,12 @@ class HistoryFamily:
     def split(self, s):
         m = re.match(r'M(.*?) S(.*)$', s + ' ')
         return m.group(1).strip(), m.group(2).strip(), True
+
+    def within_hypotheses(self, case):
+        """the specification speaks of the Cartesian product of NON-EMPTY domains (C02): with an empty domain the product is empty
+        although a query may never need to enumerate that variable (a disjunct it is absent from) - such histories are compared
+        with the model only"""
+        return all(len(d) > 0 for _, d in case.get('doms', []))
 
     # ------------------------------------------------------------------------------------------ comparison
     def canon(self, case, io):
@@ -500,7 +507,7 @@ def with_histories(base_cls, share, make_case):
             return H.split(s)
 
         def within_hypotheses(self, case):
-            return True if case.get('hist') else base_cls.within_hypotheses(self, case)
+            return H.within_hypotheses(case) if case.get('hist') else base_cls.within_hypotheses(self, case)
 
         def canon(self, case, io):
             return H.canon(case, io) if case.get('hist') else base_cls.canon(self, case, io)
